@@ -534,7 +534,14 @@ fn check_names(c: &NameCase) -> Verdict {
                 let spec = crate::probe::SetSpec { rules: vec![("r".into(), case.expr.clone())], fns: fns.clone(), symbols: BTreeMap::new(), suspend: 0 };
                 let _ = spec;
                 let mut b = ruleset();
-                let the_rule = || Rule::new("r", BTreeMap::new(), case.expr.clone());
+                // (the rule carries metadata under the very names of the symbols: metadata is not a name space of the language)
+                let the_rule = || {
+                    Rule::new(
+                        "r",
+                        NAMES.iter().map(|n| (n.to_string(), Value::String(format!("metadata#{n}")))).chain([("description".to_string(), Value::Int(7))]).collect(),
+                        case.expr.clone(),
+                    )
+                };
                 if rule_position == 2 {
                     b = b.with_rule(the_rule()).expect("rule");
                 }
